@@ -591,4 +591,668 @@ theorem scatter_duplicate_witness :
     let c := mkCondition [("M/a", .name "x"), ("M/b", .name "x")] ["x"]
     c.pIndices = [0, 0] ∧ scatterRow c [0] [1, 3] = [-3] ∧ scatterRowSum c [0] [1, 3] = [-4] := by decide +kernel
 
+/-! ## The numbers the fit minimises: residual, sum of squares, recovery (deepening round D) -/
+
+/-- **noise_free_residual_zero.** If every dataset of a built fit is noise-free data of its model's function at the
+    dataset's own direct reading of a global vector `g` (each model parameter = the entry of the name it is mapped to,
+    or its constant), then the residual the CODE evaluates at `g` (condition strings → groups → the first dataset's
+    `Condition` → index table → `get_local_params`, concatenated over conditions, datasets, models) vanishes. -/
+theorem noise_free_residual_zero (fs : List ModelFn) (F : Fit) (hkeys : F.table.map (·.1) = globalNames F.models)
+    (hinj : ∀ m ∈ F.models, CondInj m) (g : List Rat)
+    (hnf : ∀ mf ∈ F.models.zip fs, ∀ d ∈ mf.1.data,
+      NoiseFree mf.2 (localDirect d.trans (globalNames F.models) g) d) :
+    ∀ r ∈ F.residualAt fs g, r = 0 := by
+  intro r hr
+  obtain ⟨mf, hmf, hr⟩ := mem_residualAt fs F g r hr
+  have hm : mf.1 ∈ F.models := (List.of_mem_zip hmf).1
+  rw [hkeys] at hr
+  obtain ⟨d, hd, hr⟩ := mem_residual mf.2 mf.1 _ (hinj _ hm)
+    (fun d hd => namesIn_globalNames F.models mf.1 hm d hd) g r hr
+  exact dataResidual_zero _ _ d (hnf mf hmf d hd) r hr
+
+/-- what a fit that ran to the end leaves behind (`G` = the rebuilt fit) -/
+theorem fit_done (r : Bool) (opt : Opt) (F : Fit) (lb ub : List (Option Rat)) (x0 x : List Rat)
+    (hdone : (F.fit r opt).2 = .done lb ub x0 x) :
+    let G := F.rebuild r
+    lb = maskSel G.fitted G.lbs ∧ ub = maskSel G.fitted G.ubs ∧ x0 = maskSel G.fitted G.values ∧
+    opt lb ub x0 = .ok x ∧ (F.fit r opt).1 = { G with table := tableAfter G.table x } := by
+  intro G
+  rcases fit_spec r opt F with ⟨h1, _⟩ | ⟨h1, _⟩ | ⟨_, _, h1, _⟩ | ⟨x', hx, _, _, _, h1⟩
+  · rw [h1] at hdone; cases hdone
+  · rw [h1] at hdone; cases hdone
+  · rw [h1] at hdone; cases hdone
+  · rw [h1] at hdone ⊢
+    simp only [FitOutcome.done.injEq] at hdone
+    obtain ⟨e1, e2, e3, e4⟩ := hdone
+    subst e1 e2 e3 e4
+    exact ⟨rfl, rfl, rfl, hx, rfl⟩
+
+/-- **generating_values_minimise.** Twice the cost `least_squares` minimises is a sum of squares: it is never
+    negative, so a parameter vector at which the residual vanishes (noise-free data at its generating values, however
+    many datasets and models there are) is a GLOBAL minimiser of what the fit minimises. -/
+theorem generating_values_minimise (fs : List ModelFn) (F : Fit) (gstar : List Rat)
+    (hzero : ∀ ρ ∈ F.residualAt fs gstar, ρ = 0) (g : List Rat) :
+    sumSq (F.residualAt fs gstar) = 0 ∧ sumSq (F.residualAt fs gstar) ≤ sumSq (F.residualAt fs g) := by
+  have h0 := (sumSq_eq_zero_iff _).mpr hzero
+  exact ⟨h0, h0 ▸ sumSq_nonneg _⟩
+
+/-- **refit_from_optimum_unchanged.** Re-fitting from a point where the residual vanishes (noise-free data at the
+    optimum) leaves the fit exactly as it was, for ANY optimiser that (a) answers a point of its box and (b) does not
+    answer a point with a larger sum of squares than its start (both asserted on every recorded call of
+    `least_squares`), whenever the free parameters are identifiable from the data (`hident`: inside the box the
+    residual vanishes only at the start). -/
+theorem refit_from_optimum_unchanged (r : Bool) (opt : Opt) (fs : List ModelFn) (F : Fit)
+    (hzero : ∀ ρ ∈ (F.rebuild r).residualAt fs (F.rebuild r).values, ρ = 0)
+    (lb ub : List (Option Rat)) (x0 x : List Rat) (hdone : (F.fit r opt).2 = .done lb ub x0 x)
+    (hbox : inBox lb ub x = true)
+    (hdesc : sumSq ((F.rebuild r).objective fs x) ≤ sumSq ((F.rebuild r).objective fs x0))
+    (hident : ∀ z, inBox lb ub z = true → (∀ ρ ∈ (F.rebuild r).objective fs z, ρ = 0) → z = x0) :
+    x = x0 ∧ (F.fit r opt).1 = F.rebuild r := by
+  obtain ⟨_, _, e3, _, e5⟩ := fit_done r opt F lb ub x0 x hdone
+  have h0 : sumSq ((F.rebuild r).objective fs x0) = 0 := by
+    rw [e3, objective_start]; exact (sumSq_eq_zero_iff _).mpr hzero
+  have h1 : sumSq ((F.rebuild r).objective fs x) = 0 :=
+    le_antisymm (h0 ▸ hdesc) (sumSq_nonneg _)
+  have hx : x = x0 := hident x hbox ((sumSq_eq_zero_iff _).mp h1)
+  refine ⟨hx, ?_⟩
+  rw [e5, hx, e3]
+  show Fit.mk _ _ _ = _
+  rw [show (F.rebuild r).fitted = (F.rebuild r).table.map (!·.2.fixed) from rfl,
+    show (F.rebuild r).values = (F.rebuild r).table.map (·.2.value) from rfl, tableAfter_start]
+
+/-- **recovers_generating_parameters.** Noise-free data: every dataset of the (rebuilt) fit is generated by its
+    model's function at the dataset's own reading of a global vector `gstar` that agrees with the table on the fixed
+    positions (`gstar = writeBack fitted zs values`: the fixed parameters sit at their generating values) and whose free
+    part `zs` lies in the box.  If the free parameters are identifiable from the data (`hident`: inside the box the
+    residual vanishes only at `zs`) and the optimiser answers a minimiser of the sum of squares over its box (`hmin` -
+    the part that is NOT proved of `least_squares`: convergence of TRF is explored by the harness), then the fit returns
+    the generating values: the optimiser's answer is `zs` and the table holds `gstar`. -/
+theorem recovers_generating_parameters (r : Bool) (opt : Opt) (fs : List ModelFn) (F : Fit)
+    (hkeys : (F.rebuild r).table.map (·.1) = globalNames (F.rebuild r).models)
+    (hinj : ∀ m ∈ (F.rebuild r).models, CondInj m)
+    (lb ub : List (Option Rat)) (x0 x : List Rat) (hdone : (F.fit r opt).2 = .done lb ub x0 x)
+    (hbox : inBox lb ub x = true)
+    (hmin : ∀ z, inBox lb ub z = true →
+      sumSq ((F.rebuild r).objective fs x) ≤ sumSq ((F.rebuild r).objective fs z))
+    (zs : List Rat) (hzs : inBox lb ub zs = true)
+    (hnf : ∀ mf ∈ (F.rebuild r).models.zip fs, ∀ d ∈ mf.1.data,
+      NoiseFree mf.2 (localDirect d.trans (globalNames (F.rebuild r).models)
+        (writeBack (F.rebuild r).fitted zs (F.rebuild r).values)) d)
+    (hident : ∀ z, inBox lb ub z = true → (∀ ρ ∈ (F.rebuild r).objective fs z, ρ = 0) → z = zs) :
+    x = zs ∧ (F.fit r opt).1.values = writeBack (F.rebuild r).fitted zs (F.rebuild r).values := by
+  obtain ⟨_, _, _, _, e5⟩ := fit_done r opt F lb ub x0 x hdone
+  have hz : ∀ ρ ∈ (F.rebuild r).objective fs zs, ρ = 0 :=
+    noise_free_residual_zero fs (F.rebuild r) hkeys hinj _ hnf
+  have h1 : sumSq ((F.rebuild r).objective fs x) = 0 :=
+    le_antisymm (((sumSq_eq_zero_iff _).mpr hz) ▸ hmin zs hzs) (sumSq_nonneg _)
+  have hx : x = zs := hident x hbox ((sumSq_eq_zero_iff _).mp h1)
+  refine ⟨hx, ?_⟩
+  rw [e5, hx]
+  exact tableAfter_values _ _
+
+/-! ### a worked instance: model y = a + b·x, two datasets sharing `a`, the second with its own `b2` -/
+
+def exD1 : Data := ⟨"d1", [("M/a", .name "M/a"), ("M/b", .name "M/b")], 2,
+  [0, 4607182418800017408], [4607182418800017408, 4613937818241073152]⟩   -- x = 0, 1   y = 1, 3   (a = 1, b = 2)
+def exD2 : Data := ⟨"d2", [("M/a", .name "M/a"), ("M/b", .name "M/b2")], 2,
+  [0, 4607182418800017408], [4607182418800017408, 4618441417868443648]⟩   -- x = 0, 1   y = 1, 6   (a = 1, b2 = 5)
+def exM (built : Bool) : ModelData := ⟨[("M/a", none), ("M/b", none)], [exD1, exD2], built⟩
+/-- the built fit with the table values `v1 v2 v3` (all free, unbounded) -/
+def exG (v1 v2 v3 : Rat) : Fit := ⟨[exM true],
+  [("M/a", ⟨v1, none, none, false⟩), ("M/b", ⟨v2, none, none, false⟩), ("M/b2", ⟨v3, none, none, false⟩)], true⟩
+
+theorem ex_rebuild : (Fit.mk [exM false] [] false).rebuild false = exG 0 0 0 := by decide +kernel
+
+theorem ex_conds : generateConditions (exM true) ["M/a", "M/b", "M/b2"] =
+    [(⟨[some 0, some 1], [none, none], [0, 1], [0, 1]⟩, [exD1]),
+     (⟨[some 0, some 2], [none, none], [0, 1], [0, 2]⟩, [exD2])] := by decide +kernel
+
+theorem ex_bits : bitsToRat 4607182418800017408 = 1 ∧ bitsToRat 0 = 0 ∧ bitsToRat 4613937818241073152 = 3 ∧
+    bitsToRat 4618441417868443648 = 6 := by decide +kernel
+
+theorem ex_objective (v1 v2 v3 a b c : Rat) :
+    (exG v1 v2 v3).objective [polyFn] [a, b, c] = [1 - a, 3 - (a + b), 1 - a, 6 - (a + c)] := by
+  unfold Fit.objective Fit.residualAt
+  simp only [exG, Fit.fitted, Fit.values, List.map, Bool.not_false, writeBack, List.zipWith,
+    ModelData.residual, List.flatten]
+  rw [ex_conds]
+  obtain ⟨h1, h0, h3, h6⟩ := ex_bits
+  simp [residualOf, dataResidual, getLocalParams, exD1, exD2, h1, h0, h3, h6, polyFn, polyAux]
+
+theorem ex_condInj : ∀ m ∈ (exG 0 0 0).models, CondInj m := by
+  intro m hm
+  simp only [exG, List.mem_cons, List.not_mem_nil, or_false] at hm
+  subst hm
+  intro a ha b hb
+  simp only [exM, List.mem_cons, List.not_mem_nil, or_false] at ha hb
+  rcases ha with rfl | rfl <;> rcases hb with rfl | rfl <;> decide
+
+theorem ex_three (lb ub : List (Option Rat)) (z : List Rat) (h : inBox lb ub z = true) (hl : lb.length = 3) :
+    ∃ a b c, z = [a, b, c] := by
+  have := inBox_length lb ub z h
+  match z, this with
+  | [a, b, c], _ => exact ⟨a, b, c, rfl⟩
+  | [], h' => simp [hl] at h'
+  | [_], h' => simp [hl] at h'
+  | [_, _], h' => simp [hl] at h'
+  | _ :: _ :: _ :: _ :: _, h' => simp [hl] at h'
+
+/-- non-vacuity of `recovers_generating_parameters`: start (0, 0, 0), generating values (1, 2, 5), an optimiser that
+    answers the minimiser; all hypotheses hold and the theorem yields the table (1, 2, 5) -/
+example : ((Fit.mk [exM false] [] false).fit false (fun _ _ _ => .ok [1, 2, 5])).1.values = [1, 2, 5] := by
+  have hdone : ((Fit.mk [exM false] [] false).fit false (fun _ _ _ => .ok [1, 2, 5])).2 =
+      .done [none, none, none] [none, none, none] [0, 0, 0] [1, 2, 5] := by decide +kernel
+  have h := recovers_generating_parameters false (fun _ _ _ => .ok [1, 2, 5]) [polyFn] (Fit.mk [exM false] [] false)
+    (by rw [ex_rebuild]; decide +kernel) (by rw [ex_rebuild]; exact ex_condInj)
+    _ _ _ _ hdone (by decide)
+    (by
+      intro z _
+      rw [ex_rebuild, ex_objective]
+      have : sumSq [1 - 1, 3 - (1 + 2), 1 - 1, 6 - (1 + 5)] = 0 := by decide +kernel
+      rw [this]; exact sumSq_nonneg _)
+    [1, 2, 5] (by decide)
+    (by
+      rw [ex_rebuild]
+      intro mf hmf d hd
+      simp only [exG, List.zip_cons_cons, List.zip_nil_right, List.mem_cons, List.not_mem_nil, or_false] at hmf
+      subst hmf
+      simp only [exM, List.mem_cons, List.not_mem_nil, or_false] at hd
+      rcases hd with rfl | rfl <;> (unfold NoiseFree; decide +kernel))
+    (by
+      intro z hz h0
+      obtain ⟨a, b, c, rfl⟩ := ex_three _ _ z hz rfl
+      rw [ex_rebuild, ex_objective] at h0
+      simp only [List.mem_cons, List.not_mem_nil, or_false, forall_eq_or_imp, forall_eq] at h0
+      obtain ⟨e1, e2, _, e4⟩ := h0
+      have ha : a = 1 := by linarith
+      have hb : b = 2 := by linarith
+      have hc : c = 5 := by linarith
+      rw [ha, hb, hc])
+  rw [h.2, ex_rebuild]; decide +kernel
+
+/-- non-vacuity of `refit_from_optimum_unchanged`: the table already holds (1, 2, 5), the optimiser stays where it
+    started (TRF at a zero gradient) -/
+example : ((exG 1 2 5).fit false (fun _ _ x0 => .ok x0)).1 = exG 1 2 5 := by
+  have hr : (exG 1 2 5).rebuild false = exG 1 2 5 := by decide +kernel
+  have hdone : ((exG 1 2 5).fit false (fun _ _ x0 => .ok x0)).2 =
+      .done [none, none, none] [none, none, none] [1, 2, 5] [1, 2, 5] := by decide +kernel
+  have h := refit_from_optimum_unchanged false (fun _ _ x0 => .ok x0) [polyFn] (exG 1 2 5)
+    (by
+      rw [hr, ← objective_start]
+      show ∀ ρ ∈ (exG 1 2 5).objective [polyFn] [1, 2, 5], ρ = 0
+      rw [ex_objective]; decide +kernel)
+    _ _ _ _ hdone (by decide) (le_refl _)
+    (by
+      intro z hz h0
+      obtain ⟨a, b, c, rfl⟩ := ex_three _ _ z hz rfl
+      rw [hr, ex_objective] at h0
+      simp only [List.mem_cons, List.not_mem_nil, or_false, forall_eq_or_imp, forall_eq] at h0
+      obtain ⟨e1, e2, _, e4⟩ := h0
+      have ha : a = 1 := by linarith
+      have hb : b = 2 := by linarith
+      have hc : c = 5 := by linarith
+      rw [ha, hb, hc])
+  rw [h.2, hr]
+
+/-- **noise_free_by_name_residual_zero.** The generating values given by NAME (`gen`): when the table of a built fit
+    holds `gen` and every dataset is noise-free data of its model at its own by-name reading of `gen` (a shared name:
+    one value, a renamed one: its own, a constant: itself), the residual the fit evaluates at its table values
+    vanishes — for any number of models, datasets, renamings and constants. -/
+theorem noise_free_by_name_residual_zero (fs : List ModelFn) (F : Fit)
+    (hkeys : F.table.map (·.1) = globalNames F.models) (hinj : ∀ m ∈ F.models, CondInj m)
+    (gen : String → Rat) (hgen : ∀ e ∈ F.table, e.2.value = gen e.1)
+    (hnf : ∀ mf ∈ F.models.zip fs, ∀ d ∈ mf.1.data, NoiseFree mf.2 (localByName d.trans gen) d) :
+    ∀ ρ ∈ F.residualAt fs F.values, ρ = 0 := by
+  apply noise_free_residual_zero fs F hkeys hinj
+  intro mf hmf d hd
+  have hm : mf.1 ∈ F.models := (List.of_mem_zip hmf).1
+  have := localDirect_of_table F.table gen hgen d.trans
+    (by rw [hkeys]; exact namesIn_globalNames F.models mf.1 hm d hd)
+  rw [hkeys] at this
+  show NoiseFree mf.2 (localDirect d.trans (globalNames F.models) (F.table.map (·.2.value))) d
+  rw [this]
+  exact hnf mf hmf d hd
+
+/-- **more_noise_free_data_keeps_optimum.** A fit whose table holds the generating values `gen` gets a further
+    dataset that introduces no new parameter (whatever model it goes to, whatever it shares, renames to existing names
+    or overrides): after the rebuild the table still holds `gen` (the ORDER of the table may have changed —
+    `add_data_reorder_witness` — the values by name have not), and if the new dataset too is noise-free data of `gen`
+    the residual of the enlarged fit still vanishes there: the optimum stays a global minimiser
+    (`generating_values_minimise`) and a refit leaves it unchanged (`refit_from_optimum_unchanged`). -/
+theorem more_noise_free_data_keeps_optimum (r : Bool) (fs : List ModelFn) (F : Fit) (pre post : List ModelData)
+    (m : ModelData) (hF : F.models = pre ++ m :: post) (hkeys : F.table.map (·.1) = globalNames F.models)
+    (gen : String → Rat) (hgen : ∀ e ∈ F.table, e.2.value = gen e.1)
+    (d : Data) (hold : ∀ n ∈ parameterNames d, n ∈ F.table.map (·.1)) :
+    let F' := Fit.build r { F with models := withData pre m post d }
+    (∀ e ∈ F'.table, e.2.value = gen e.1) ∧
+    ((∀ m' ∈ F'.models, CondInj m') →
+     (∀ mf ∈ F'.models.zip fs, ∀ d' ∈ mf.1.data, NoiseFree mf.2 (localByName d'.trans gen) d') →
+     ∀ ρ ∈ F'.residualAt fs F'.values, ρ = 0) := by
+  intro F'
+  have hg : ∀ e ∈ F'.table, e.2.value = gen e.1 := by
+    apply setParams_gen F.table _ _ gen hgen
+    intro n hn
+    simp only [globalNames, mem_unique] at hn
+    rw [allNames_withData] at hn
+    rw [hkeys, hF]
+    simp only [globalNames, mem_unique, allNames, List.flatMap_append, List.flatMap_cons, List.mem_append]
+    simp only [allNames, List.mem_append] at hn
+    rcases hn with (h | h | h) | h
+    · exact .inl h
+    · exact .inr (.inl h)
+    · have := hold n h
+      rw [hkeys, hF] at this
+      simpa only [globalNames, mem_unique, allNames, List.flatMap_append, List.flatMap_cons, List.mem_append]
+        using this
+    · exact .inr (.inr h)
+  refine ⟨hg, fun hinj hnf => ?_⟩
+  have hk : F'.table.map (·.1) = globalNames F'.models := by
+    rw [build_table_keys, build_models_names]
+  exact noise_free_by_name_residual_zero fs F' hk hinj gen hg hnf
+
+/-- the generating values of the worked instance, by name -/
+def exGen (n : String) : Rat := if n = "M/a" then 1 else if n = "M/b" then 2 else 5
+
+/-- a further dataset with the layout of `d2` (shares `M/a`, uses `M/b2`): x = 2, y = 1 + 5·2 = 11 -/
+def exD3 : Data := ⟨"d3", [("M/a", .name "M/a"), ("M/b", .name "M/b2")], 1, [4611686018427387904], [4622382067542392832]⟩
+
+/-- non-vacuity of `noise_free_by_name_residual_zero` and `more_noise_free_data_keeps_optimum`: the worked instance at
+    its generating values, then a third noise-free dataset without a new parameter -/
+example :
+    (∀ ρ ∈ (exG 1 2 5).residualAt [polyFn] (exG 1 2 5).values, ρ = 0) ∧
+    (let F' := Fit.build false { exG 1 2 5 with models := withData [] (exM true) [] exD3 }
+     ∀ ρ ∈ F'.residualAt [polyFn] F'.values, ρ = 0) := by
+  have hgen : ∀ e ∈ (exG 1 2 5).table, e.2.value = exGen e.1 := by decide +kernel
+  have hkeys : (exG 1 2 5).table.map (·.1) = globalNames (exG 1 2 5).models := by decide +kernel
+  constructor
+  · apply noise_free_by_name_residual_zero [polyFn] (exG 1 2 5) hkeys ex_condInj exGen hgen
+    intro mf hmf d hd
+    simp only [exG, List.zip_cons_cons, List.zip_nil_right, List.mem_cons, List.not_mem_nil, or_false] at hmf
+    subst hmf
+    simp only [exM, List.mem_cons, List.not_mem_nil, or_false] at hd
+    rcases hd with rfl | rfl <;> (unfold NoiseFree; decide +kernel)
+  · have h := (more_noise_free_data_keeps_optimum false [polyFn] (exG 1 2 5) [] [] (exM true) rfl hkeys exGen hgen
+      exD3 (by decide +kernel)).2
+    apply h
+    · intro m' hm'
+      simp only [Fit.build, withData, exM, List.nil_append, List.map_cons, List.map_nil, List.mem_cons,
+        List.not_mem_nil, or_false] at hm'
+      subst hm'
+      intro a ha b hb
+      simp only [List.cons_append, List.nil_append, List.mem_cons, List.not_mem_nil, or_false] at ha hb
+      rcases ha with rfl | rfl | rfl <;> rcases hb with rfl | rfl | rfl <;> decide
+    · intro mf hmf d hd
+      simp only [Fit.build, withData, exM, List.nil_append, List.map_cons, List.map_nil, List.zip_cons_cons,
+        List.zip_nil_right, List.mem_cons, List.not_mem_nil, or_false] at hmf
+      subst hmf
+      simp only [List.cons_append, List.nil_append, List.mem_cons, List.not_mem_nil, or_false] at hd
+      rcases hd with rfl | rfl | rfl <;> (unfold NoiseFree; decide +kernel)
+
+/-- `CondInj` cannot be dropped from the recovery theorems: with the condition-string collision of O-C14-A (a
+    parameter NAMED "5" next to the constant 5) the second dataset is noise-free data of its own parameter "5" = 7
+    (y = 7 + 2·x at x = 0, 1), the table holds the generating values (M/b = 2, "5" = 7) — and the residual the code
+    evaluates there is (0, 0, 2, 2), not zero: the generating values are not a minimiser of what the fit minimises
+    (kernel-checked). -/
+theorem collision_breaks_recovery :
+    let d1 : Data := ⟨"d1", [("M/a", .const 5 "5"), ("M/b", .name "M/b")], 2,
+      [0, 4607182418800017408], [4617315517961601024, 4619567317775286272]⟩      -- y = 5 + 2x : 5, 7
+    let d2 : Data := ⟨"d2", [("M/a", .name "5"), ("M/b", .name "M/b")], 2,
+      [0, 4607182418800017408], [4619567317775286272, 4621256167635550208]⟩      -- y = 7 + 2x : 7, 9
+    let m : ModelData := ⟨[("M/a", none), ("M/b", none)], [d1, d2], true⟩
+    let F : Fit := ⟨[m], [("M/b", ⟨2, none, none, false⟩), ("5", ⟨7, none, none, false⟩)], true⟩
+    F.table.map (·.1) = globalNames F.models ∧
+    NoiseFree polyFn (localDirect d1.trans (globalNames F.models) F.values) d1 ∧
+    NoiseFree polyFn (localDirect d2.trans (globalNames F.models) F.values) d2 ∧
+    F.residualAt [polyFn] F.values = [0, 0, 2, 2] := by
+  unfold NoiseFree
+  decide +kernel
+
+/-- The residual the driver answers for the tie (`c14.resid`, as-is variant) IS the residual the theorems are about,
+    with the polynomial toy function for every model. -/
+theorem residualV_eq (F : Fit) (g : List Rat) :
+    (F.residualV false g).1 = F.residualAt (F.models.map fun _ => polyFn) g := by
+  unfold Fit.residualV Fit.residualAt
+  simp only [condsVariant, Bool.false_eq_true, ↓reduceIte, ModelData.residual]
+  congr 1
+  generalize F.models = ms
+  induction ms with
+  | nil => rfl
+  | cons m ms ih => simp only [List.map_cons, List.zipWith_cons_cons, ih]
+
+/-- **cost_is_sum_over_datasets (one model).** The sum of squares of the residual the code evaluates — grouped by
+    condition strings, each group evaluated with its first dataset's `Condition` — is the sum over ALL datasets of the
+    model, each once, of the sum of squares of its own block evaluated at its own direct reading of the global vector. -/
+theorem model_cost_is_sum_over_datasets (f : ModelFn) (m : ModelData) (uniq : List String) (hinj : CondInj m)
+    (hin : ∀ d ∈ m.data, NamesIn d.trans uniq) (g : List Rat) :
+    sumSq (m.residual f uniq g) =
+      (m.data.map fun d => sumSq (dataResidual f (localDirect d.trans uniq g) d)).sum := by
+  unfold ModelData.residual generateConditions
+  refine (sumSq_residualOf_filterMap f uniq g (groups m)).trans ?_
+  have hB : ∀ grp ∈ groups m, groupCost f uniq g grp =
+      (grp.map fun d => sumSq (dataResidual f (localDirect d.trans uniq g) d)).sum := by
+    intro grp hgrp
+    cases grp with
+    | nil => rfl
+    | cons r rest =>
+      show ((r :: rest).map fun d => sumSq (dataResidual f (getLocalParams (mkCondition r.trans uniq) g) d)).sum = _
+      congr 1
+      apply List.map_congr_left
+      intro d hd
+      obtain ⟨hr, hdm, hs⟩ := mem_groups m _ r d hgrp List.mem_cons_self hd
+      rw [mkCondition_congr _ _ uniq (hinj r hr d hdm hs), getLocalParams_mkCondition _ _ _ (hin d hdm)]
+  rw [List.map_congr_left hB]
+  unfold groups
+  rw [List.map_map]
+  exact sum_by_key m.data (fun d => (unique (m.data.map condString)).idxOf (condString d)) _ _
+    (fun d hd => List.idxOf_lt_length_of_mem ((mem_unique _ _).mpr (List.mem_map_of_mem hd)))
+
+/-- **cost_is_sum_over_datasets.** What the fit minimises is the sum over ALL datasets of ALL models — each exactly
+    once, whatever the grouping into conditions — of the squared residuals of that dataset evaluated at ITS OWN
+    reading of the global vector (shared name: the one entry; renamed: its own entry; constant: itself). -/
+theorem cost_is_sum_over_datasets (fs : List ModelFn) (F : Fit)
+    (hkeys : F.table.map (·.1) = globalNames F.models) (hinj : ∀ m ∈ F.models, CondInj m) (g : List Rat) :
+    sumSq (F.residualAt fs g) =
+      ((F.models.zip fs).map fun mf =>
+        (mf.1.data.map fun d =>
+          sumSq (dataResidual mf.2 (localDirect d.trans (globalNames F.models) g) d)).sum).sum := by
+  unfold Fit.residualAt
+  rw [sumSq_flatten, zipWith_eq_map_zip', List.map_map, hkeys]
+  congr 1
+  apply List.map_congr_left
+  intro mf hmf
+  have hm : mf.1 ∈ F.models := (List.of_mem_zip hmf).1
+  exact model_cost_is_sum_over_datasets mf.2 mf.1 _ (hinj _ hm)
+    (fun d hd => namesIn_globalNames F.models mf.1 hm d hd) g
+
+/-- …and when the table holds values given by NAME (`gen`), the cost at the table values is the sum over all datasets
+    of the squared residuals at the dataset's by-name reading of `gen`. -/
+theorem cost_by_name (fs : List ModelFn) (F : Fit)
+    (hkeys : F.table.map (·.1) = globalNames F.models) (hinj : ∀ m ∈ F.models, CondInj m)
+    (gen : String → Rat) (hgen : ∀ e ∈ F.table, e.2.value = gen e.1) :
+    sumSq (F.residualAt fs F.values) =
+      ((F.models.zip fs).map fun mf =>
+        (mf.1.data.map fun d => sumSq (dataResidual mf.2 (localByName d.trans gen) d)).sum).sum := by
+  rw [cost_is_sum_over_datasets fs F hkeys hinj]
+  congr 1
+  apply List.map_congr_left
+  intro mf hmf
+  have hm : mf.1 ∈ F.models := (List.of_mem_zip hmf).1
+  congr 1
+  apply List.map_congr_left
+  intro d hd
+  have := localDirect_of_table F.table gen hgen d.trans
+    (by rw [hkeys]; exact namesIn_globalNames F.models mf.1 hm d hd)
+  rw [hkeys] at this
+  show sumSq (dataResidual mf.2 (localDirect d.trans (globalNames F.models) (F.table.map (·.2.value))) d) = _
+  rw [this]
+
+/-- non-vacuity: the worked instance at the start (0, 0, 0): 1² + 3² from `d1`, 1² + 6² from `d2` -/
+example : sumSq ((exG 0 0 0).residualAt [polyFn] [0, 0, 0]) = (1 + 9) + (1 + 36) := by
+  rw [cost_is_sum_over_datasets [polyFn] (exG 0 0 0) (by decide +kernel) ex_condInj]
+  decide +kernel
+
+/-! ## The Jacobian the fit hands to its optimiser -/
+
+/-- **jacobian_entry_chain_rule (one row).** In the row the code builds for a sample of a dataset — a zero row of the
+    width of the table, `np.subtract.at(row, p_indices, sensitivities[p_external])` — the column of the global parameter
+    `n` holds minus the SUM, over all model parameters the dataset maps to the name `n` (one term per path: none, one,
+    or several), of their local sensitivities; in particular 0 for a parameter the dataset does not use. -/
+theorem scatter_entry_chain_rule (tr : List (String × Target)) (uniq : List String) (h : NamesIn tr uniq)
+    (sens : List Rat) (n : String) (hn : n ∈ uniq) :
+    (scatterRowSum (mkCondition tr uniq) (List.replicate uniq.length 0) sens).getD (uniq.idxOf n) 0 =
+      -((tr.zipIdx.filter fun ek => ek.1.2 = .name n).map fun ek => sens.getD ek.2 0).sum := by
+  rw [scatterRowSum_eq_fold tr uniq h, foldl_subAt_getD _ _ _ (by
+    rw [List.length_replicate]; exact List.idxOf_lt_length_of_mem hn)]
+  unfold pathPairs
+  rw [pathPairs_column_sum tr.zipIdx uniq sens (fun ek he s hs =>
+    h ek.1 (by
+      have := List.mem_zipIdx he  -- may need adjusting
+      exact this.2.2 ▸ List.getElem_mem _) s hs) n]
+  have hz : (List.replicate uniq.length (0 : Rat)).getD (uniq.idxOf n) 0 = 0 := by
+    rw [List.getD_eq_getElem?_getD, List.getElem?_replicate]
+    split <;> rfl
+  rw [hz, zero_sub]
+
+/-- **jacobian_entry_chain_rule.** Every row of the Jacobian the fit evaluates (`Fit._calculate_jacobian`: condition
+    strings → groups → the first dataset's `Condition` → `p_indices` / `p_external` → unbuffered scatter, over all
+    models) belongs to a sample `x` of a dataset `d`, and its entry in the column of ANY global parameter `n` is minus the
+    sum, over all model parameters that `d` maps to `n`, of the model's sensitivities at `d`'s own reading of the
+    global vector. -/
+theorem jacobian_entry_chain_rule (Js : List SensFn) (F : Fit)
+    (hkeys : F.table.map (·.1) = globalNames F.models) (hinj : ∀ m ∈ F.models, CondInj m) (g : List Rat)
+    (row : List Rat) (h : row ∈ F.jacobianAt Js g) :
+    ∃ mf ∈ F.models.zip Js, ∃ d ∈ mf.1.data, ∃ x ∈ d.x, ∀ n ∈ globalNames F.models,
+      row.getD ((globalNames F.models).idxOf n) 0 =
+        -((d.trans.zipIdx.filter fun ek => ek.1.2 = .name n).map fun ek =>
+            (mf.2 (localDirect d.trans (globalNames F.models) g) (bitsToRat x)).getD ek.2 0).sum := by
+  unfold Fit.jacobianAt at h
+  simp only [List.mem_flatten] at h
+  obtain ⟨blk, hblk, hrow⟩ := h
+  obtain ⟨mf, hmf, e⟩ := mem_zipWith_zip _ _ _ _ hblk
+  subst e
+  have hm : mf.1 ∈ F.models := (List.of_mem_zip hmf).1
+  rw [hkeys] at hrow
+  have hin := fun d hd => namesIn_globalNames F.models mf.1 hm d hd
+  obtain ⟨d, hd, x, hx, rfl⟩ := mem_model_jacobian mf.2 mf.1 _ (hinj _ hm) hin g row hrow
+  exact ⟨mf, hmf, d, hd, x, hx, fun n hn => scatter_entry_chain_rule d.trans _ (hin d hd) _ n hn⟩
+
+/-- …in particular the column of a parameter the dataset does not use (another dataset's own, renamed parameter) is
+    zero in all rows of that dataset: dataset-specific parameters are independent to first order too. -/
+theorem unused_parameter_column_zero (tr : List (String × Target)) (uniq : List String) (h : NamesIn tr uniq)
+    (sens : List Rat) (n : String) (hn : n ∈ uniq) (hun : ∀ e ∈ tr, e.2 ≠ .name n) :
+    (scatterRowSum (mkCondition tr uniq) (List.replicate uniq.length 0) sens).getD (uniq.idxOf n) 0 = 0 := by
+  rw [scatter_entry_chain_rule tr uniq h sens n hn]
+  have : (tr.zipIdx.filter fun ek => ek.1.2 = .name n) = [] := by
+    rw [List.filter_eq_nil_iff]
+    intro ek hek
+    have hm : ek.1 ∈ tr := by
+      have := List.mem_zipIdx hek
+      exact this.2.2 ▸ List.getElem_mem _
+    simpa using hun ek.1 hm
+  rw [this]; simp
+
+/-- non-vacuity: `d2` of the worked instance (M/a shared, M/b → M/b2) at x = 1: row (−1, 0, −1) over (M/a, M/b, M/b2);
+    and a dataset that maps BOTH model parameters to one name gets the sum of both sensitivities in that column -/
+example :
+    (exG 0 0 0).jacobianAt [polySens] [0, 0, 0] = [[-1, 0, 0], [-1, -1, 0], [-1, 0, 0], [-1, 0, -1]] ∧
+    scatterRowSum (mkCondition [("M/a", .name "x"), ("M/b", .name "x")] ["x"]) [0] (polySens [0, 0] 3) = [-4] := by
+  decide +kernel
+
+/-- The Jacobian the driver answers for the tie (`c14.fjac`, as-is variant) IS the Jacobian the theorems are about,
+    with the sensitivities of the polynomial toy for every model. -/
+theorem jacobianV_eq (F : Fit) (g : List Rat) :
+    F.jacobianV false g = F.jacobianAt (F.models.map fun _ => polySens) g := by
+  unfold Fit.jacobianV Fit.jacobianAt
+  simp only [condsVariant, Bool.false_eq_true, ↓reduceIte, ModelData.jacobian, List.length_map]
+  congr 1
+  generalize F.models = ms
+  induction ms with
+  | nil => rfl
+  | cons m ms ih => simp only [List.map_cons, List.zipWith_cons_cons, ih]
+
+/-! ## Action sequences and the length of the residual vector -/
+
+/-- **add_noise_free_data_then_refit_unchanged.** The sequence of user actions "add a further dataset, fit again" on
+    a fit whose table holds the generating values `gen`: if the dataset is accepted, introduces no new parameter and
+    all data (old and new) is noise-free data of `gen`, then for any optimiser that stays in its box and does not
+    increase the sum of squares, and identifiable free parameters, the second fit returns the table of the rebuilt fit
+    unchanged — it still holds `gen`. -/
+theorem add_noise_free_data_then_refit_unchanged (r : Bool) (opt : Opt) (fs : List ModelFn) (F : Fit)
+    (pre post : List ModelData) (m : ModelData) (hF : F.models = pre ++ m :: post)
+    (hkeys : F.table.map (·.1) = globalNames F.models)
+    (gen : String → Rat) (hgen : ∀ e ∈ F.table, e.2.value = gen e.1)
+    (name : String) (ov : List (String × Target)) (nx ny : List Bool) (xs ys : List Nat)
+    (tr : List (String × Target))
+    (hname : m.data.any (fun d => d.name == name) = false) (hlen : nx.length = ny.length)
+    (htr : parseTransformation (m.params.map (·.1)) ov = some tr)
+    (hold : ∀ n ∈ tr.filterMap (·.2.name?), n ∈ F.table.map (·.1)) :
+    let F1 := (F.addData pre.length name ov nx ny xs ys).1
+    (∀ m' ∈ (F1.rebuild r).models, CondInj m') →
+    (∀ mf ∈ (F1.rebuild r).models.zip fs, ∀ d' ∈ mf.1.data, NoiseFree mf.2 (localByName d'.trans gen) d') →
+    ∀ (lb ub : List (Option Rat)) (x0 x : List Rat), (F1.fit r opt).2 = .done lb ub x0 x →
+    inBox lb ub x = true →
+    sumSq ((F1.rebuild r).objective fs x) ≤ sumSq ((F1.rebuild r).objective fs x0) →
+    (∀ z, inBox lb ub z = true → (∀ ρ ∈ (F1.rebuild r).objective fs z, ρ = 0) → z = x0) →
+    (F1.fit r opt).1 = F1.rebuild r ∧ ∀ e ∈ (F1.fit r opt).1.table, e.2.value = gen e.1 := by
+  intro F1 hinj hnf lb ub x0 x hdone hbox hdesc hident
+  have e1 : F1 = { F with models := (withData pre m post
+      ⟨name, tr, countValid nx ny, keepValid nx ny xs, keepValid nx ny ys⟩) } := by
+    show (F.addData pre.length name ov nx ny xs ys).1 = _
+    rw [addData_ok F pre post m hF name ov nx ny xs ys tr hname hlen htr]
+  have e2 : F1.rebuild r = Fit.build r { F with models := (withData pre m post
+      ⟨name, tr, countValid nx ny, keepValid nx ny xs, keepValid nx ny ys⟩) } := by
+    rw [e1]; unfold Fit.rebuild; rw [dirty_withData]; rfl
+  obtain ⟨hg, hz⟩ := more_noise_free_data_keeps_optimum r fs F pre post m hF hkeys gen hgen
+    ⟨name, tr, countValid nx ny, keepValid nx ny xs, keepValid nx ny ys⟩ hold
+  rw [← e2] at hg hz
+  have h := refit_from_optimum_unchanged r opt fs F1 (hz hinj hnf) lb ub x0 x hdone hbox hdesc hident
+  exact ⟨h.2, by rw [h.2]; exact hg⟩
+
+/-- the worked instance after `d3` was added (through `add_data`) and the fit rebuilt -/
+def exG3 : Fit := ⟨[⟨[("M/a", none), ("M/b", none)], [exD1, exD2, exD3], true⟩],
+  [("M/a", ⟨1, none, none, false⟩), ("M/b", ⟨2, none, none, false⟩), ("M/b2", ⟨5, none, none, false⟩)], true⟩
+
+theorem ex3_rebuild :
+    (((exG 1 2 5).addData 0 "d3" [("M/b", .name "M/b2")] [false] [false] [4611686018427387904]
+      [4622382067542392832]).1).rebuild false = exG3 := by decide +kernel
+
+theorem ex3_conds : generateConditions ⟨[("M/a", none), ("M/b", none)], [exD1, exD2, exD3], true⟩
+    ["M/a", "M/b", "M/b2"] =
+    [(⟨[some 0, some 1], [none, none], [0, 1], [0, 1]⟩, [exD1]),
+     (⟨[some 0, some 2], [none, none], [0, 1], [0, 2]⟩, [exD2, exD3])] := by decide +kernel
+
+theorem ex3_objective (a b c : Rat) :
+    exG3.objective [polyFn] [a, b, c] = [1 - a, 3 - (a + b), 1 - a, 6 - (a + c), 11 - (a + c * 2)] := by
+  unfold Fit.objective Fit.residualAt
+  simp only [exG3, Fit.fitted, Fit.values, List.map, Bool.not_false, writeBack, List.zipWith,
+    ModelData.residual, List.flatten]
+  rw [ex3_conds]
+  obtain ⟨h1, h0, h3, h6⟩ := ex_bits
+  have h2 : bitsToRat 4611686018427387904 = 2 ∧ bitsToRat 4622382067542392832 = 11 := by decide +kernel
+  simp [residualOf, dataResidual, getLocalParams, exD1, exD2, exD3, h1, h0, h3, h6, h2.1, h2.2, polyFn, polyAux]
+
+/-- non-vacuity of `add_noise_free_data_then_refit_unchanged`: the worked instance at (1, 2, 5), `d3` added through
+    `add_data` with the override `M/b → M/b2`, refit with an optimiser that stays at its start -/
+example :
+    let F1 := ((exG 1 2 5).addData 0 "d3" [("M/b", .name "M/b2")] [false] [false] [4611686018427387904]
+      [4622382067542392832]).1
+    (F1.fit false (fun _ _ x0 => .ok x0)).1 = exG3 := by
+  intro F1
+  have hdone : (F1.fit false (fun _ _ x0 => .ok x0)).2 =
+      .done [none, none, none] [none, none, none] [1, 2, 5] [1, 2, 5] := by decide +kernel
+  have h := add_noise_free_data_then_refit_unchanged false (fun _ _ x0 => .ok x0) [polyFn] (exG 1 2 5) [] []
+    (exM true) rfl (by decide +kernel) exGen (by decide +kernel) "d3" [("M/b", .name "M/b2")] [false] [false]
+    [4611686018427387904] [4622382067542392832] [("M/a", .name "M/a"), ("M/b", .name "M/b2")]
+    (by decide) rfl (by decide) (by decide +kernel)
+    (by
+      show ∀ m' ∈ (F1.rebuild false).models, CondInj m'
+      rw [ex3_rebuild]
+      intro m' hm'
+      simp only [exG3, List.mem_cons, List.not_mem_nil, or_false] at hm'
+      subst hm'
+      intro a ha b hb
+      simp only [List.mem_cons, List.not_mem_nil, or_false] at ha hb
+      rcases ha with rfl | rfl | rfl <;> rcases hb with rfl | rfl | rfl <;> decide)
+    (by
+      show ∀ mf ∈ (F1.rebuild false).models.zip [polyFn], ∀ d' ∈ mf.1.data, NoiseFree mf.2 (localByName d'.trans exGen) d'
+      rw [ex3_rebuild]
+      intro mf hmf d hd
+      simp only [exG3, List.zip_cons_cons, List.zip_nil_right, List.mem_cons, List.not_mem_nil, or_false] at hmf
+      subst hmf
+      simp only [List.mem_cons, List.not_mem_nil, or_false] at hd
+      rcases hd with rfl | rfl | rfl <;> (unfold NoiseFree; decide +kernel))
+    _ _ _ _ hdone (by decide) (le_refl _)
+    (by
+      show ∀ z, inBox _ _ z = true → (∀ ρ ∈ (F1.rebuild false).objective [polyFn] z, ρ = 0) → z = [1, 2, 5]
+      intro z hz h0
+      obtain ⟨a, b, c, rfl⟩ := ex_three _ _ z hz rfl
+      rw [ex3_rebuild, ex3_objective] at h0
+      simp only [List.mem_cons, List.not_mem_nil, or_false, forall_eq_or_imp, forall_eq] at h0
+      obtain ⟨e1, e2, _, e4, _⟩ := h0
+      have ha : a = 1 := by linarith
+      have hb : b = 2 := by linarith
+      have hc : c = 5 := by linarith
+      rw [ha, hb, hc])
+  exact h.1.trans ex3_rebuild
+
+/-- **residual_length.** The residual vector the fit evaluates has exactly one entry per valid sample pair of every
+    dataset of every model (`n_residuals`), whatever the grouping into conditions: no dataset is left out, none is
+    evaluated twice. -/
+theorem model_residual_length (f : ModelFn) (m : ModelData) (uniq : List String) (g : List Rat)
+    (hok : ∀ d ∈ m.data, DataOk d) : (m.residual f uniq g).length = m.nResiduals := by
+  unfold ModelData.residual generateConditions
+  refine (length_residualOf_filterMap f uniq g (groups m) ?_).trans ?_
+  · intro grp hgrp d hd
+    cases grp with
+    | nil => cases hd
+    | cons r rest => exact hok d (mem_groups m _ r d hgrp List.mem_cons_self hd).2.1
+  · unfold groups ModelData.nResiduals
+    rw [List.map_map]
+    exact nsum_by_key m.data (fun d => (unique (m.data.map condString)).idxOf (condString d)) _ _
+      (fun d hd => List.idxOf_lt_length_of_mem ((mem_unique _ _).mpr (List.mem_map_of_mem hd)))
+
+theorem residual_length (fs : List ModelFn) (F : Fit) (g : List Rat) (hfs : fs.length = F.models.length)
+    (hok : ∀ m ∈ F.models, ∀ d ∈ m.data, DataOk d) : (F.residualAt fs g).length = F.nResiduals := by
+  unfold Fit.residualAt Fit.nResiduals
+  rw [List.length_flatten, zipWith_eq_map_zip', List.map_map]
+  have : ∀ mf ∈ F.models.zip fs, ((fun l : List Rat => l.length) ∘ fun p : ModelData × ModelFn =>
+      p.1.residual p.2 (F.table.map (·.1)) g) mf = mf.1.nResiduals := by
+    intro mf hmf
+    exact model_residual_length mf.2 mf.1 _ g (hok _ (List.of_mem_zip hmf).1)
+  rw [List.map_congr_left this]
+  have hz : (F.models.zip fs).map (fun mf => mf.1.nResiduals) = F.models.map (·.nResiduals) := by
+    rw [show (fun mf : ModelData × ModelFn => mf.1.nResiduals) = (fun m : ModelData => m.nResiduals) ∘ Prod.fst from rfl,
+      ← List.map_map, List.map_fst_zip (by omega)]
+  rw [hz]
+
+/-- `add_data` ESTABLISHES `DataOk`: when the caller hands over as many samples as mask entries, every dataset of the
+    fit holds exactly `npoints` pairs afterwards (accepted or refused). -/
+theorem addData_dataOk (F : Fit) (mi : Nat) (name : String) (ov : List (String × Target)) (nx ny : List Bool)
+    (xs ys : List Nat) (hx : xs.length = nx.length) (hy : ys.length = ny.length)
+    (hok : ∀ m ∈ F.models, ∀ d ∈ m.data, DataOk d) :
+    ∀ m ∈ (F.addData mi name ov nx ny xs ys).1.models, ∀ d ∈ m.data, DataOk d := by
+  unfold Fit.addData
+  cases hm : F.models[mi]? with
+  | none => exact hok
+  | some m =>
+    simp only
+    have hmm : m ∈ F.models := List.mem_of_getElem? hm
+    split
+    · exact hok
+    · split
+      · exact hok
+      · rename_i hlen
+        have hlen' : nx.length = ny.length := by simpa using hlen
+        cases htr : parseTransformation (m.params.map (·.1)) ov with
+        | none =>
+          simp only
+          intro m' hm' d hd
+          rcases List.mem_or_eq_of_mem_set hm' with h | h
+          · exact hok m' h d hd
+          · subst h; exact hok m hmm d hd
+        | some tr =>
+          simp only
+          intro m' hm' d hd
+          rcases List.mem_or_eq_of_mem_set hm' with h | h
+          · exact hok m' h d hd
+          · subst h
+            simp only [List.mem_append, List.mem_cons, List.not_mem_nil, or_false] at hd
+            rcases hd with hd | rfl
+            · exact hok m hmm d hd
+            · exact ⟨keepValid_length nx ny xs hlen' hx, keepValid_length nx ny ys hlen' (hy.trans hlen'.symm)⟩
+
+/-- non-vacuity of `residual_length` / `addData_dataOk`: the worked instance (its datasets hold as many samples as
+    `npoints` says), before and after a third dataset went through `add_data` -/
+example (g : List Rat) :
+    ((exG 0 0 0).residualAt [polyFn] g).length = 4 ∧
+    (∀ m ∈ ((exG 1 2 5).addData 0 "d3" [("M/b", .name "M/b2")] [false] [false] [4611686018427387904]
+      [4622382067542392832]).1.models, ∀ d ∈ m.data, DataOk d) := by
+  have hok : ∀ v1 v2 v3, ∀ m ∈ (exG v1 v2 v3).models, ∀ d ∈ m.data, DataOk d := by
+    intro v1 v2 v3 m hm d hd
+    simp only [exG, exM, List.mem_cons, List.not_mem_nil, or_false] at hm
+    subst hm
+    simp only [List.mem_cons, List.not_mem_nil, or_false] at hd
+    rcases hd with rfl | rfl <;> exact ⟨rfl, rfl⟩
+  exact ⟨residual_length [polyFn] (exG 0 0 0) g rfl (hok 0 0 0), addData_dataOk _ _ _ _ _ _ _ _ rfl rfl (hok 1 2 5)⟩
+
 end Verif.C14
